@@ -254,7 +254,7 @@ Definition step (e : env) (w : world) (o : op) : world * res :=
     else if mode =? 1 then (mkWorld (w_bos w ++ [empty_bo c false (Some O) m]) ctxs (w_vars w) (w_cerr w), RNone)
     else match nth_error (w_vars w) v with
          | None => (w, RBad)
-         | Some x => if v_weight x =? 0 then (w, RBad)
+         | Some x => if (v_weight x =? 0) && (0 <? m) then (w, RBad)   (* the code divides by the weight only if m > 0 *)
                      else (mkWorld (w_bos w ++ [empty_bo c false (Some v) (weighted m (v_weight x))]) ctxs (w_vars w) (w_cerr w), RNone)
          end
   | OBackoff i c maxms errid s => do_backoff e w i c maxms errid s
